@@ -365,10 +365,15 @@ func (g *c20MemGetter) GetIterator(o IteratorOpts) (Iterator, error) {
 	if g.real != nil {
 		return g.real.GetIterator(o)
 	}
-	// the adapter around the tree cursor is the real one; the tree cursor is the contract model
-	me := &memEng{engOpened: 1}
-	me.rwmutex.RLock()
-	return &memIterator{db: me, opts: o, memit: &c20MemModel{c20Cursor{keys: g.keys, pos: -1}}}, nil
+	// the adapter around the tree cursor is the real one (newMemIterator computes its bounds);
+	// the tree cursor it wraps is then replaced by the contract model
+	useMemType = memTypeBtree
+	it, err := newMemIterator(&memEng{engOpened: 1, eng: &btree{}}, o)
+	if err != nil {
+		return nil, err
+	}
+	it.memit = &c20MemModel{c20Cursor{keys: g.keys, pos: -1}}
+	return it, nil
 }
 
 func Verif_C20_E2_MemAdapter() {
